@@ -169,6 +169,16 @@ def job_sequences(first, oi, maxlen):
             acc.violation('stream-exception', {'kind': 'stream', 'sources': [i], 'options': list(opts)}, 'enum raised ' + r[1])
             return acc
         solos[i] = r[1]
+    # ids a source needs: AST ids are always drawn (the document is always parsed), pickle ids only when pickles are selected
+    need = {}
+    for i in range(len(POOL)):
+        full = solo(i, (True, True, True))[1]
+        if full and 'parseError' in full[0]:
+            need[i] = None
+        else:
+            ast_ids = count_ids([e for e in full if 'gherkinDocument' in e])
+            pk_ids = count_ids([e for e in full if 'pickle' in e])
+            need[i] = ast_ids + (pk_ids if opts[2] else 0)
     seq = None
     for n in range(1, maxlen + 1):
         for rest in itertools.product(range(len(POOL)), repeat=n - 1):
@@ -192,6 +202,10 @@ def job_sequences(first, oi, maxlen):
                     break
                 off = first_offset(evs, solos[i])
                 want = shift_ids(solos[i], off)
+                if count_ids(evs) and all(need[j] is not None for j in seq[:pos]) and off != sum(need[j] for j in seq[:pos]):
+                    acc.violation('id-counter-advance', case, 'ids of source %d at position %d start at %d; the accepted sources before it needed %d ids (AST ids always, pickle ids only when pickles are selected)'
+                                  % (i, pos, off, sum(need[j] for j in seq[:pos])))
+                    break
                 if count_ids(evs) and off < running:
                     acc.violation('source-independence', case, 'ids of source %d at position %d start at offset %d, below the %d ids already handed out' % (i, pos, off, running))
                     break
@@ -313,6 +327,40 @@ def job_files(items):
     return acc
 
 
+@worker
+def job_script_multi(flags):
+    """scripts/generate_events.py with several paths in one invocation prints what one GherkinEvents prints for those sources in that order
+    (one stream: ids continue across files, every file appears once per mention)."""
+    import os
+    acc = Acc()
+    good, bad = R.corpus()
+    groups = [[good[0], good[1]], [good[2], bad[0], good[3]], [bad[1], bad[2]], [good[4], good[4]], [good[5], good[6], good[7], bad[3]]]
+    for paths in groups:
+        rels = ['../testdata/%s/%s' % (os.path.basename(os.path.dirname(p)), os.path.basename(p)) for p in paths]
+        acc.n += 1
+        acc.validated += 1
+        acc.nontrivial += 1
+        case = {'kind': 'script-multi', 'paths': rels, 'flags': flags}
+        try:
+            out = run_script('generate_events', list(flags) + rels)
+        except BaseException as e:  # noqa: BLE001
+            acc.violation('script-exception', case, 'generate_events raised %s: %s' % (type(e).__name__, e))
+            continue
+        got = [json.loads(l) for l in out.splitlines() if l.strip()]
+        opts = ('--no-source' not in flags, '--no-ast' not in flags, '--no-pickles' not in flags)
+        ge = GherkinEvents(GherkinEvents.Options(print_source=opts[0], print_ast=opts[1], print_pickles=opts[2]))
+        want = []
+        for p, rel in zip(paths, rels):
+            want += I.events(R.read_source(p), uri=rel, opts=opts, ge=ge)[1]
+        want = json.loads(json.dumps(want))
+        if got != want:
+            i = next((i for i, (x, y) in enumerate(zip(got, want)) if x != y), min(len(got), len(want)))
+            acc.violation('script-vs-stream', case, 'generate_events over %d paths differs from one stream over the same sources at envelope %d (of %d / %d)' % (len(rels), i, len(got), len(want)),
+                          observed=str(got[i:i + 1])[:300], expected=str(want[i:i + 1])[:300])
+    acc.sample({'script': 'generate_events', 'paths': rels, 'flags': list(flags)})
+    return acc
+
+
 def run(ctx):
     probs = R.selftest()
     ctx.selftest(not probs, 'reference pipeline reproduces the acceptance corpus (%s)' % (probs[:3] or 'ok'))
@@ -324,6 +372,7 @@ def run(ctx):
     good, bad = R.corpus()
     files = good + bad
     ctx.level('generate_events script on the corpus', [job_script.job(files[i:i + 4]) for i in range(0, len(files), 4)])
+    ctx.level('generate_events script with several paths', [job_script_multi.job(f) for f in ([], ['--no-source'], ['--no-pickles'], ['--no-source', '--no-ast'], ['--no-source', '--no-pickles'])])
     items = POOL + FILE_EXTRA
     ctx.level('source_event on files', [job_files.job(items[i:i + 5]) for i in range(0, len(items), 5)])
     n = ctx.pick(3, 4)
